@@ -159,6 +159,18 @@ fn n_hdr_getters_many_tags() {
                     let got = getter_addr(&h, t2);
                     assert_eq!(got, want, "getter of kind {t2}: first tag of that type in walk order (target kind {typ}, {k} fillers, present {present})");
                 }
+                // repeatable across clones and fresh iterators: a clone taken after j steps continues the SAME walk
+                for j in [0usize, 1, 2, walk.len() / 2, walk.len()] {
+                    let mut it = h.iter();
+                    for _ in 0..j.min(walk.len()) {
+                        it.next();
+                    }
+                    let rest_clone: Vec<usize> = it.clone().map(|t| t as *const _ as *const u8 as usize - base).collect();
+                    let rest: Vec<usize> = it.map(|t| t as *const _ as *const u8 as usize - base).collect();
+                    let want_rest: Vec<usize> = walk[j.min(walk.len())..].iter().map(|(o, _)| *o).collect();
+                    assert_eq!(rest, want_rest, "iterator advanced by {j} continues the walk");
+                    assert_eq!(rest_clone, want_rest, "clone taken after {j} steps continues the same walk");
+                }
                 if present {
                     assert_eq!(getter_addr(&h, typ), Some(base + first_off));
                 } else {
